@@ -197,3 +197,6 @@ reg('C06', 'ropeinv', 'rule_prefix_exhaust')      # the column of a cut chunk is
 reg('C17', 'panics', 'rule_content_unwrap', ('dev', 'release'))   # a source announced without content (no sourcesContent, no original source) must not panic
 reg('C14', 'caches', 'rule_fill_agree')           # map() of an unchanged value answers the same whichever call filled the cache
 reg('C20', 'eqhash', 'rule_hash_framed')          # trees that differ in text must not feed the hasher the identical call sequence
+reg('C07', 'ropeinv', 'rule_prefix_sum')          # rope() renders to source(): ReplaceSource::rope() slices its inner rope by these offsets
+reg('C06', 'streams', 'rule_pair')                # a child-announced name keeps its name: the translation table is filled for every announced index
+reg('C11', 'bounds', 'rule_vlq_terminated')       # a field whose last digit carries the continuation bit swallows the next one: the string no longer decodes into 1/4/5-field segments
